@@ -341,6 +341,43 @@ pub fn run(ctx: &Ctx) -> Report {
             }
         }
     }
+    // what a finished fiber keeps: a program that holds on to fibers that have run to their end (to ask
+    // `has_finished`, say) keeps the fiber objects - not what their locals, temporaries and callees held.
+    // The objects left behind by keeping twelve finished fibers must not depend on what their bodies did.
+    {
+        let mut r = Runner::new(ctx.runner_opt.clone());
+        let bodies: [(&str, &str); 7] = [
+            ("returns at once", "return 1;"),
+            ("three locals", "var a = [1, 2, 3]; var b = (4, [5]); var c = {\"k\": [6]}; return 1;"),
+            ("locals of a callee that returned", "fn inner() { var x = [[1], [2]]; return x.len(); } var n = inner(); return n;"),
+            ("yielded twice before finishing", "var a = [1, 2, 3]; Fiber.yield(a); var b = [a, a]; Fiber.yield(b); return 1;"),
+            ("a loop with a body local", "var t = 0; for i in 0..5 { var row = [i, [i]]; t += row[0]; } return t;"),
+            ("finished through try/finally with a pending return", "try { var a = [1, [2]]; return a.len(); } finally { var z = [[3]]; }"),
+            ("an instance and a closure", "var o = K.new(); o.f = [1, 2]; var c = || o; return c().f.len();"),
+        ];
+        let mk = |body: &str| format!("{}\nvar kept = [];\nfor i in 0..12 {{ var f = Fiber.new(|| {{ {} }}); while !f.has_finished() {{ f.call(); }} kept.push(f); }}\nprint(kept.len());\n", PRELUDE, body);
+        let mut reference: Option<BTreeMap<String, usize>> = None;
+        for (what, body) in bodies {
+            let src = mk(body);
+            match run_prog(&mut r, &src, &["gc_then_heap"], false) {
+                Obs::Resp(resp) => {
+                    let mut left = non_retained(&resp.heap.clone().unwrap_or_default());
+                    // the bodies differ in their code: closures and functions are compiled code's business
+                    // (and the interpreter keeps the last eight ranges at hand whoever made them)
+                    left.retain(|k, _| !k.contains("ObjClosure") && !k.contains("ObjFunction") && !k.contains("ObjUpvalue") && !k.contains("ObjRange"));
+                    match &reference {
+                        None => reference = Some(left),
+                        Some(want) => {
+                            if *want != left {
+                                depth_violations.push((format!("[what a finished fiber keeps] twelve kept fibers whose body `{}` leave {:?}; fibers that return at once leave {:?}", what, left, want), json!({"family": "what_a_finished_fiber_keeps", "source": src, "left": left, "reference": want})));
+                            }
+                        }
+                    }
+                }
+                other => depth_violations.push((format!("[what a finished fiber keeps] run ended in {}", other.describe()), json!({"source": src}))),
+            }
+        }
+    }
     let mut acc = Acc::default();
     acc.violations.extend(depth_violations);
     for a in accs {
@@ -363,7 +400,7 @@ pub fn run(ctx: &Ctx) -> Report {
     report.cov("traces_validated_against_impl", json!(acc.events));
     report.cov("distinct_nontrivial", json!(n_progs));
     report.cov("exhaustive", json!(true));
-    report.cov("rule", json!("every loop program `for i in 0..n { body }` whose body is a multiset of one or two (three in the thorough tier) of 32 allocation kinds (incl. thrown objects caught, re-thrown through finally blocks, and given up because a finally block is left by break / continue), crossed with three live-set shapes (nothing kept, a ring of the last 4, a map under a rotating key), run in the optimised build: at every allocation event and every collection of the log the monitor checks (1) no allocation at or above the threshold without a collection, heap <= max(2 x survivors, 64 KiB) + that allocation; (2) threshold after a collection = 2 x survivors, a collection never grows the heap, accounting continuous between events; (3) a collection only when the threshold in effect was reached; at the end bytes_allocated = sum of live object sizes; after dropping the interpreter exactly a fresh interpreter's residue remains; n and 2n iterations leave the same live objects by type (interned strings and compiled code excluded), and so do two collections forced from inside the running loop at the end of iteration n and of iteration 2n; the objects left behind by keeping the closure from the bottom of a recursion do not depend on its depth (0, 1, 7, 39)."));
+    report.cov("rule", json!("every loop program `for i in 0..n { body }` whose body is a multiset of one or two (three in the thorough tier) of 32 allocation kinds (incl. thrown objects caught, re-thrown through finally blocks, and given up because a finally block is left by break / continue), crossed with three live-set shapes (nothing kept, a ring of the last 4, a map under a rotating key), run in the optimised build: at every allocation event and every collection of the log the monitor checks (1) no allocation at or above the threshold without a collection, heap <= max(2 x survivors, 64 KiB) + that allocation; (2) threshold after a collection = 2 x survivors, a collection never grows the heap, accounting continuous between events; (3) a collection only when the threshold in effect was reached; at the end bytes_allocated = sum of live object sizes; after dropping the interpreter exactly a fresh interpreter's residue remains; n and 2n iterations leave the same live objects by type (interned strings and compiled code excluded), and so do two collections forced from inside the running loop at the end of iteration n and of iteration 2n; the objects left behind by keeping the closure from the bottom of a recursion do not depend on its depth (0, 1, 7, 39); the objects left behind by keeping twelve fibers that have run to their end do not depend on what their bodies did (locals, callees, yields, loops, try/finally, instances)."));
     report.cov("bounds", json!({"iterations": [n1, n2], "kinds": kinds().len(), "live_set_shapes": 3}));
     report.cov("programs", json!(n_progs));
     report.cov("allocation_events_checked", json!(acc.events));
